@@ -135,6 +135,7 @@ def run(facts, rep, tier):
     rep.trusted = ["rustc MIR", "source/adapter classification table in sq/rules/c13.py (std semantics)"]
     rep.rule("R13.1", "loop exits only on source exhaustion / genuine I/O error; no content-dependent truncation", "P")
     rep.rule("R13.2", "no loop-carried state is written before the accept gates", "P")
+    rep.rule("R13.3", "rejecting a line cannot panic: the gate is panic-free on every junk-line context (E2 obligations)", "P")
     eff = Effects(facts)
     reg = Region(facts, eff)
     body, cfg, du = reg.loop_body, reg.loop_cfg, DefUse(reg.loop_body)
@@ -350,6 +351,37 @@ def run(facts, rep, tier):
                                 % (what, g), span_loc(sp)))
     rep.sample({"rule": "R13.2", "mutation_sites": [w for _, w, _ in sites], "gates": list(gates)})
     rep.instances("R13.2", n, floor=9, what="(state mutation site x gate) dominance facts")
+    # R13.3: a panic while rejecting a line ends processing early just as a loop exit would
+    from ..absint.batch import k2_results
+    from ..absint.query import sel
+    out = k2_results(facts, tier)
+    n3 = 0
+    seen = set()
+    from ..absint.domain import EnumV
+    for r in sel(out["results"], "K1"):
+        if not (isinstance(r.gate, EnumV) and r.gate.only("None")) and not (r.diverged and r.gate is None):
+            continue        # an accepted line: what runs after the gate is not "rejecting a line"
+        n3 += 1
+        bad = [o for o in r.obligations if not o["ok"]]
+        for o in bad:
+            if o["site"] in seen:
+                continue
+            seen.add(o["site"])
+            rep.add(Finding("R13.3", "%s" % o["site"], "while deciding about an unusable line (context '%s') the gate can panic at %s (%s): "
+                            "the reader thread dies and every later line is lost" % (r.ctx["label"], o["site"], o["ops"]), o.get("loc")))
+        ws = [w for w in r.warnings if w[0] in ("unmodelled", "line-use")]
+        for w in ws:
+            k = ("w", w[1])
+            if k in seen:
+                continue
+            seen.add(k)
+            rep.add(Finding("R13.3", "unreviewed use of the line : %s" % w[1], "while deciding about an unusable line (context '%s') the gate "
+                            "calls %s, whose panics on arbitrary text (byte-offset slicing, non-ASCII input) are not ruled out" % (r.ctx["label"], w[1]), None))
+        if r.diverged and "panic" in r.diverged and ("p", r.diverged) not in seen:
+            seen.add(("p", r.diverged))
+            rep.add(Finding("R13.3", "gate always panics : %s" % r.ctx["label"], "every line of context '%s' panics (%s)" % (r.ctx["label"], r.diverged), None))
+        rep.oblige(not bad and not ws, ("junk-panic-free", r.ctx["label"]))
+    rep.instances("R13.3", n3, floor=50, what="junk-line contexts (digit counts 0..64, DF/length mismatches, prefixed lines)")
     rep.extra["loop"] = {"body": body.name, "header_bb": reg.header, "blocks": len(lblocks), "helper": reg.helper.name if reg.helper else None}
     rep.assumptions += [
         "std: BufRead::lines yields Err(InvalidData) for a line that is not valid UTF-8; BufRead::split yields Err only for I/O errors",
